@@ -197,13 +197,20 @@ class Application(object):
         routes = routes or []
         self.routes = []
         self._null_route = NullRoute().bind(self)
+        self._dispatch_wsgi = self._build_wsgi_stack(self.routes)
         for entry in routes:
-            self.add(entry)
-
-        all_mws = _get_all_middlewares(self.routes)
-        for mw in reversed(all_mws):
-            self._dispatch_wsgi = _safe_wrap_wsgi('middleware', mw, self._dispatch_wsgi)
+            self.add(entry)  # keeps the WSGI stack up to date
         return
+
+    def _build_wsgi_stack(self, bound_routes):
+        # the error handler's wrapper innermost, then the wrappers of
+        # all middlewares in list order (first middleware outermost)
+        wsgi_app = type(self)._dispatch_wsgi.__get__(self, type(self))
+        wsgi_app = _safe_wrap_wsgi('error_handler', self.error_handler, wsgi_app)
+        all_mws = _get_all_middlewares(bound_routes + [self._null_route])
+        for mw in reversed(all_mws):
+            wsgi_app = _safe_wrap_wsgi('middleware', mw, wsgi_app)
+        return wsgi_app
 
     def set_error_handler(self, error_handler=None):
         """Sets the :ref:`ErrorHandler <error-handlers>` instance. Call
@@ -221,9 +228,9 @@ class Application(object):
                 deh_type = self.default_error_handler_type
             error_handler = deh_type()
         check_render_error(error_handler.render_error, self.resources)
-        self._dispatch_wsgi = _safe_wrap_wsgi('error_handler', error_handler, self._dispatch_wsgi)
-
         self.error_handler = error_handler
+        if hasattr(self, '_null_route'):  # i.e., not during __init__
+            self._dispatch_wsgi = self._build_wsgi_stack(self.routes)
 
     def iter_routes(self):
         for rt in self.routes:
@@ -255,9 +262,14 @@ class Application(object):
             bound_routes = rf.bind_all(self, **kwargs)
         else:
             bound_routes = [rf.bind(self, **kwargs)]
+        # wrappers may arrive with the new routes' middlewares; build
+        # the new stack first so that a bad wrapper leaves everything as is
+        new_routes = self.routes[:index] + bound_routes + self.routes[index:]
+        wsgi_stack = self._build_wsgi_stack(new_routes)
         for br in bound_routes:
             self.routes.insert(index, br)
             index += 1
+        self._dispatch_wsgi = wsgi_stack
         return
 
     def _dispatch_wsgi(self, environ, start_response):
